@@ -3,7 +3,10 @@ package props
 import (
 	"fmt"
 	"net/netip"
+	"os"
+	"path/filepath"
 	"sort"
+	"strconv"
 	"strings"
 	"sync"
 
@@ -161,6 +164,20 @@ func c02MakeList(c *core.Ctx) *c02List {
 		default:
 			l.lines = append(l.lines, []string{"! comment", "", "example.org##.banner", "# c", "||bad^$nosuch"}[c.Rng.Intn(5)])
 		}
+	}
+	if c.Rng.Intn(12) == 0 {
+		// A hosts line with hundreds of aliases (longer than any read buffer)
+		// and a rule with a very long value list; names near the end are asked.
+		var names []string
+		for i := 0; i < 260+c.Rng.Intn(200); i++ {
+			names = append(names, "alias-"+strconv.Itoa(i)+".long.example")
+		}
+		text := "0.0.0.0 " + strings.Join(names, " ")
+		at := c.Rng.Intn(len(l.lines) + 1)
+		l.lines = append(l.lines[:at], append([]string{text}, l.lines[at:]...)...)
+		l.hosts = append(l.hosts, c02HostLine{text, names, true})
+		l.nhosts = append(l.nhosts, names[len(names)-1], names[len(names)-2], names[0], names[len(names)/2])
+		c.Event("lists_with_a_hosts_line_longer_than_4k", 1)
 	}
 
 	return l
@@ -321,6 +338,31 @@ func c02Run(c *core.Ctx, idx int) {
 		contents = append(contents, util.LinesEOL(p, []string{"\n", "\n", "\r\n"}[c.Rng.Intn(3)]))
 	}
 	storage := util.Storage(contents...)
+	if c.Rng.Intn(6) == 0 {
+		// The same lists backed by files.
+		if dir, derr := os.MkdirTemp(filepath.Join(c.Env.VerifDir, ".work"), "c02f."); derr == nil {
+			defer os.RemoveAll(dir)
+			var ls []filterlist.RuleList
+			for i, content := range contents {
+				fn := filepath.Join(dir, "list"+strconv.Itoa(i)+".txt")
+				if os.WriteFile(fn, []byte(content), 0o644) != nil {
+					break
+				}
+				fl, ferr := filterlist.NewFileRuleList(i, fn, false)
+				if ferr != nil {
+					break
+				}
+				ls = append(ls, fl)
+			}
+			if len(ls) == len(contents) {
+				if fs, serr := filterlist.NewRuleStorage(ls); serr == nil {
+					storage = fs
+					defer fs.Close()
+					c.Event("file_backed_storages", 1)
+				}
+			}
+		}
+	}
 	eng := urlfilter.NewDNSEngine(storage)
 
 	// Independently parsed rule objects for the reference.
